@@ -50,7 +50,7 @@ ConstructFails(e, seen) ==
        IF r = "D" THEN {}
        ELSE IF r = "R" THEN (IF e.out.k = "reject" THEN {} ELSE {"argument-not-converted-as-from-data"})
        ELSE LET vals == CtorVals(C, sup, checked)
-                hookfails == HookRejects(C, vals) # "F" IN
+                hookfails == HookRejects(C, vals, {C.fs[j].n : j \in SupIdx(sup)}) # "F" IN
             IF hookfails
             THEN (IF e.out.k = "exc" /\ e.out.c # "ConvertError" THEN {} ELSE {"hook-failure-not-raised"})
                  \cup (IF e.hook = 1 THEN {} ELSE {"post-init-run-count"})
